@@ -235,7 +235,7 @@ def main():
         log(f'no jobs for {pid}')
         return 2
     build_engine()
-    evid_dir = os.path.join(ROOT, 'evidence')
+    evid_dir = os.environ.get('VERIF_EVIDENCE_DIR') or os.path.join(ROOT, 'evidence')
     os.makedirs(evid_dir, exist_ok=True)
     replay_dir = os.path.join(BUILD, pid, 'replay')
     os.makedirs(replay_dir, exist_ok=True)
